@@ -312,3 +312,4 @@ class SourceUnits(_UnitOb):
                 ('constant_source_scales', w.eq(w.vec(S['Rg2'], P), f * w.vec(S['Rg'], P))),
                 ('transient_matrix_scales', w.eq(w.apply(S['Mt2'], S['phi2'], P), f * w.apply(S['Mt'], S['phi'], P))),
                 ('transient_rhs_scales', w.eq(w.vec(S['Rt2'], P), f * w.vec(S['Rt'], P)))]
+
